@@ -354,6 +354,42 @@ func TestC20_CrashDuringSave(t *testing.T) {
 					}
 					r.Count("operation_repeated_after_crash")
 				}
+				// and a later, different save that makes the file SHORTER (a short label / a removed key): whatever the
+				// crash left behind must not leak into it
+				if rerr == nil || already {
+					// (on a fresh copy of the crash state: the repeated operation above has cleaned up after itself)
+					os.RemoveAll(retry)
+					retry = hx.TempDir("c20short")
+					copyDir(t, dir, retry)
+					var fout []byte
+					var ferr error
+					did := false
+					if sc.kind == "wallet" {
+						fout, ferr = exec.Command(helper, "wallet-label", retry, "w.wlt", "s").CombinedOutput()
+						did = true
+					} else if len(sc.oldKV) > 0 || len(sc.newKV) > 0 {
+						for k := range sc.newKV {
+							if _, both := sc.oldKV[k]; both {
+								fout, ferr = exec.Command(helper, "kv-remove", retry, k).CombinedOutput()
+								did = true
+								break
+							}
+						}
+					}
+					if did {
+						if ferr != nil {
+							t.Fatalf("after a crash %s of %s, a later save that shortens the file fails: %v %s\n files: %v", what, sc.op, ferr, fout, listDir(retry))
+						}
+						if sc.kind == "wallet" {
+							if _, err := walletsOf(retry); err != nil {
+								t.Fatalf("after a crash %s of %s and a later save that shortens the wallet file, the wallet service no longer starts: %v\n files: %v\n syscalls: %s", what, sc.op, err, listDir(retry), describePlan(plan))
+							}
+						} else if _, err := kvOf(retry); err != nil {
+							t.Fatalf("after a crash %s of %s and a later save that shortens the storage file, the storage manager no longer starts: %v", what, sc.op, err)
+						}
+						r.Count("shortening_save_after_crash")
+					}
+				}
 				os.RemoveAll(retry)
 			}
 			r.Count("crash_states")
